@@ -43,6 +43,7 @@ def plan(prop, tier):
         shards.append(('nest', 0, 0))
     elif prop == 'C10':
         shards.append(('faults', 0, 0))
+        shards.append(('wide', 0, 0))
         for i in range(8):
             shards.append(('shapes', i, 8))
         n = 16 if q else 64
@@ -94,7 +95,7 @@ def consistency(prop, acc, b, d):
     return out
 
 
-def judge_case(prop, clog, b, expect_tn, out, wit):
+def judge_case(prop, clog, b, expect_tn, out, wit, label=''):
     """apply the offline oracles of `prop` to one pbat record"""
     f = next((v for _i, v in sorted(clog.ops.items()) if v and v[0] == 'pbat'), None)
     if not f:
@@ -106,6 +107,12 @@ def judge_case(prop, clog, b, expect_tn, out, wit):
         out.vios.append(Violation(prop, key, det + ' input=%r' % b[:80], wit(clog, 0)))
     if 0 in b:
         return
+    if prop == 'C10' and label == 'valid+ws':
+        # a value that is valid by construction, followed by blanks only: with the zero byte inside
+        # the buffer a parse that requires termination must succeed
+        bad = [i for i in RNT1_Z if acc[i] != '1']
+        if bad:
+            out.vios.append(Violation(prop, 'C10/termination/iff-rejected-terminated', 'valid value + blanks + zero byte rejected with termination required by variants %s: %r' % (bad, b[:80]), wit(clog, 0)))
     if prop == 'C02':
         if expect_tn is None:
             return
@@ -189,6 +196,10 @@ def invalid_classes(rng):
     for c in (b'e', b'E', b'+', b'-', b'.', b'e+', b'-.'):
         for L in (63, 64, 70, 200):
             C['long-number-runs'] += [b'-' + (c * L)[:L], b'1' + (c * L)[:L], b'-' + b'0' * L + c, b'--' + b'1' * L]
+    # at most one byte order mark, and only at the very start
+    B = corpus.BOM
+    C['bom'] = [B + B + b'1', B + B + B + b'[true]', B + B + b'{"a":[1,2]}', B + B, B + B + B, B + b' ' + B + b'1', B + B + b' null ', B * 4 + b'"s"',
+                B + b'\xef\xbb' + b'1', B + b'\xef' + b'1', B + B[:2] + B + b'[]']
     lim = jsonref.nesting_limit(REPO)
     C['nesting'] = [b'[' * (lim + 1) + b']' * (lim + 1), b'[' * (lim + 1), (b'{"a":' * (lim + 1)) + b'1' + b'}' * (lim + 1),
                     b'[' * (lim + 5) + b'1' + b']' * (lim + 5), (b'[{"a":' * (lim // 2 + 1)) + b'0' + (b'}]' * (lim // 2 + 1))]
@@ -336,7 +347,9 @@ def run_shard(shard_prop, bins, workdir, tier):
         for _ in range(bcount):
             r = rng.random()
             t, v = jsonref.gen_text(rng, maxdepth=3)
-            if r < 0.3:
+            if r < 0.12 and b'\\u0000' not in t.lower():
+                inputs.append((t + rng.choice([b'', b' ', b'\n\t', b'\r\n \t ']), None, 'valid+ws'))
+            elif r < 0.3:
                 tail = rng.choice([b'', b' ', b'\n\t', b'x', b' x', b',', b']', b'\x00', b' \x00', b'\x00x', b'\x01', b' 1', b'null', b'\x00\x00'])
                 inputs.append((t + tail, None, 'valid+tail'))
             elif r < 0.5:
@@ -349,6 +362,14 @@ def run_shard(shard_prop, bins, workdir, tier):
                 inputs.append((jsonref.ws(rng, 1.0) * rng.randrange(1, 4), None, 'only-ws'))
             else:
                 inputs.append((rng.choice([b'[', b'"', b'-', b'{"a":', b'{', b'[1,', b'"\\', b'"\\u12', b'tru', b'1e', b' ', b'']), None, 'fail-at-last-byte'))
+    elif kind == 'wide':
+        # breadth is not depth: more sibling containers (empty ones too) than the nesting limit has levels
+        for n in (lim - 1, lim + 1, 2 * lim + 7):
+            for elem in (b'[]', b'{}', b'{ }', b'[ ]', b'[[]]', b'{"a":{}}', b'[{}]', b'""', b'{"a":[]}'):
+                for doc in (b'[' + b','.join([elem] * n) + b']', b'{"w":[' + b' , '.join([elem] * n) + b'],"tail":' + elem + b'}',
+                            b'{' + b','.join(b'"k%d":%s' % (i, elem) for i in range(n)) + b'}'):
+                    for tail in (b'', b' \n', b'x', b' ]'):
+                        inputs.append((doc + tail, None, 'valid+ws' if tail.strip() == b'' else 'valid+tail'))
     elif kind == 'nest':
         pass
     else:
@@ -393,7 +414,7 @@ def run_shard(shard_prop, bins, workdir, tier):
                 out.vios += mechanical_violations(prop, cl, wit)
                 if cl.died:
                     continue
-                r = judge_case(prop, cl, b, etn, out, wit)
+                r = judge_case(prop, cl, b, etn, out, wit, label)
                 if fl == 'asan' or len(bins) == 1:
                     out.count('class:' + label.split(':')[0] if prop != 'C03' else 'class:' + ':'.join(label.split(':')[:2]))
                     if r and r[0] == jsonref.REJECT or (r and r[1] == jsonref.REJECT):
@@ -488,7 +509,7 @@ def finish(prop, tier, results):
     if prop == 'C03':
         rc = {k[9:]: v for k, v in tot.stats.items() if k.startswith('rejclass:')}
         cov['reject_claims_by_class'] = rc
-        need = ['unbalanced', 'mismatched', 'commas', 'colons', 'keys', 'literals', 'numbers', 'quotes', 'escapes', 'hex4', 'surrogates', 'truncated', 'nesting']
+        need = ['bom', 'unbalanced', 'mismatched', 'commas', 'colons', 'keys', 'literals', 'numbers', 'quotes', 'escapes', 'hex4', 'surrogates', 'truncated', 'nesting']
         missing = [c for c in need if not any(k.startswith('invalid:' + c) for k in rc)]
         if missing:
             inconclusive = 'coverage floor: no reject claim in classes %s' % missing
